@@ -100,13 +100,6 @@ impl UnixTerminal {
         let mut poll = Poll::new();
         poll.register(PollEvent::new(&tty).with_readable(true))?;
 
-        // switching terminal into a raw mode
-        // [Entering Raw Mode](https://viewsourcecode.org/snaptoken/kilo/02.enteringRawMode.html)
-        let termios_saved = rustix::termios::tcgetattr(&tty)?;
-        let mut termios = termios_saved.clone();
-        termios.make_raw();
-        rustix::termios::tcsetattr(&tty, rustix::termios::OptionalActions::Flush, &termios)?;
-
         // signal delivery
         let (signal_read, signal_write) = UnixStream::pair()?;
         let signal_delivery = SignalDelivery::with_pipe(
@@ -130,6 +123,15 @@ impl UnixTerminal {
             }
         });
         poll.register(PollEvent::new(&waker_read).with_readable(true))?;
+
+        // switching terminal into a raw mode
+        // [Entering Raw Mode](https://viewsourcecode.org/snaptoken/kilo/02.enteringRawMode.html)
+        // NOTE: this must be the last fallible step before terminal object is created,
+        //       as it is the terminal object that restores saved settings when dropped.
+        let termios_saved = rustix::termios::tcgetattr(&tty)?;
+        let mut termios = termios_saved.clone();
+        termios.make_raw();
+        rustix::termios::tcsetattr(&tty, rustix::termios::OptionalActions::Flush, &termios)?;
 
         let capabilities = TerminalCaps::default();
         let mut term = Self {
